@@ -130,6 +130,24 @@ func loadProg(dir string, goos, goarch string) (*Prog, error) {
 			}
 		}
 	}
+	// the small generic search helpers of package slices are analysed from their source, like
+	// in-module helpers (a hand-written scan and slices.Contains/IndexFunc are then one form)
+	if pk := p.All["slices"]; pk != nil && pk.TypesInfo != nil {
+		for _, f := range pk.Syntax {
+			for _, d := range f.Decls {
+				fd, ok := d.(*ast.FuncDecl)
+				if !ok || fd.Body == nil || fd.Recv != nil {
+					continue
+				}
+				switch fd.Name.Name {
+				case "Index", "IndexFunc", "Contains", "ContainsFunc":
+					if obj, _ := pk.TypesInfo.Defs[fd.Name].(*types.Func); obj != nil {
+						p.Funcs[obj] = &FuncSrc{Obj: obj, Decl: fd, Pkg: pk}
+					}
+				}
+			}
+		}
+	}
 	sort.Slice(p.Pkgs, func(i, j int) bool { return p.Pkgs[i].PkgPath < p.Pkgs[j].PkgPath })
 	// registry of module types without Unwrap/Is methods (for errors.Is on literals)
 	noUnwrap := map[string]bool{}
@@ -212,7 +230,9 @@ func (p *Prog) fn(name string) *FuncSrc { return p.ByName[name] }
 func (p *Prog) productFuncs() []*FuncSrc {
 	var out []*FuncSrc
 	for _, f := range p.Funcs {
-		out = append(out, f)
+		if isProductPkg(f.Pkg.PkgPath, p.ModPath) {
+			out = append(out, f)
+		}
 	}
 	sort.Slice(out, func(i, j int) bool { return out[i].Decl.Pos() < out[j].Decl.Pos() })
 	return out
